@@ -190,11 +190,30 @@ func (e *Engine) callResolved(st *State, in ssa.Instruction, t callTarget, k fun
 		e.applyContract(st, in, t, done)
 	case t.closure != nil || (t.contract != nil && t.contract.Inline):
 		e.inline(st, in, t, done)
-	case t.fn != nil && t.fn.Blocks != nil && e.autoInline(t.fn):
+	case t.fn != nil && t.fn.Blocks != nil && (e.autoInline(t.fn) || e.inlineHelper(st, t.fn)):
 		e.inline(st, in, t, done)
 	default:
 		e.opaque(st, in, t, done)
 	}
+}
+
+// inlineHelper: a function of the package under verification that has no
+// contract is treated as part of its caller's body (so extracting a helper
+// does not change what is proved); recursion and deep nesting stay opaque.
+func (e *Engine) inlineHelper(st *State, fn *ssa.Function) bool {
+	if fn.Pkg == nil || st.ctx.fn.Pkg == nil || fn.Pkg != st.ctx.fn.Pkg || st.fr.depth >= 3 {
+		return false
+	}
+	for f := st.fr; f != nil; f = f.parent {
+		if f.fn == fn {
+			return false
+		}
+	}
+	n := 0
+	for _, b := range fn.Blocks {
+		n += len(b.Instrs)
+	}
+	return n <= 400
 }
 
 func (e *Engine) isDeterministic(t callTarget) bool {
@@ -203,6 +222,9 @@ func (e *Engine) isDeterministic(t callTarget) bool {
 	}
 	if t.closure != nil {
 		return true // inlined: its own calls are checked
+	}
+	if t.fn != nil && t.fn.Blocks != nil && t.fn.Pkg != nil && e.specs.lookup(t.fn) == nil && strings.HasPrefix(t.fn.Pkg.Pkg.Path(), repoMod) {
+		return true // uncontracted helper of the package: inlined, its own calls are checked
 	}
 	if t.fn != nil {
 		if e.isPureName(fullName(t.fn)) || e.autoInline(t.fn) {
@@ -1096,6 +1118,17 @@ func (e *Engine) doRecv(st *State, in *ssa.UnOp, ch Val) {
 // blockingOp records a blocking channel operation outside a select.
 func (st *State) blockingOp(in ssa.Instruction, what string) {
 	st.blocking = append(st.blocking, what)
+	c := st.ctx.contract
+	if c == nil || len(c.Shutdown) == 0 || strings.HasPrefix(what, "lock:") || in == nil || in.Parent() != st.ctx.fn {
+		return
+	}
+	for _, m := range c.MayBlock {
+		if m == what {
+			st.ctx.note("%s may block at %s without a shutdown alternative (accepted by its contract: mayblock)", c.Key, what)
+			return
+		}
+	}
+	st.oblige(in, "shutdown", TFalse, "blocking "+what+" outside a select has no shutdown alternative")
 }
 
 func (e *Engine) doSelect(st *State, in *ssa.Select, k func(*State)) {
@@ -1112,6 +1145,17 @@ func (e *Engine) doSelect(st *State, in *ssa.Select, k func(*State)) {
 	st.event("select{"+strings.Join(names, ",")+"}", in.Pos())
 	if in.Blocking {
 		st.selects = append(st.selects, names)
+		if c := st.ctx.contract; c != nil && len(c.Shutdown) > 0 && in.Parent() == st.ctx.fn {
+			ok := false
+			for _, nm := range names {
+				for _, sd := range c.Shutdown {
+					if nm == "recv:"+sd {
+						ok = true
+					}
+				}
+			}
+			st.oblige(in, "shutdown", B(ok), fmt.Sprintf("blocking select {%s} has a shutdown case (one of %v)", strings.Join(names, ", "), c.Shutdown))
+		}
 	}
 	branch := func(s *State, idx int) {
 		tup := []Val{scalar(types.Typ[types.Int], I(int64(idx))), boolVal(s.ctx.freshConst("sel!ok", SBool))}
